@@ -142,6 +142,13 @@ def run_unit(root, module, prop, tier, seed, rebaseline=False):
     rec["known_names"] = {k.get("obligation") for k in load_known(root)[0] if k.get("property") == prop}
     classify_unit(rec, r, meta, base, changed, text)
     rec.pop("known_names", None)
+    if meta.get("lost_items"):
+        # fragments whose anchors were lost were left out of the generated file: what remains was verified (a failing obligation there is still reported), but the
+        # unit cannot be green
+        rec["lost_items"] = meta["lost_items"]
+        if rec["status"] == "ok":
+            rec["status"] = "undecided"
+            rec["reason"] = "anchor lost / unsupported construct: " + "; ".join(f"{x['item']}: {x['reason']}" for x in meta["lost_items"])
     if rec.get("known_failed"):
         # hand the known-finding obligations to finish(); they never turn an otherwise green unit red by themselves
         if rec["status"] == "ok":
